@@ -12,9 +12,11 @@ import (
 	"net/http"
 	"os"
 	"path/filepath"
+	"semaverif/fw"
 	"strings"
 	"sync"
 	"sync/atomic"
+	"syscall"
 	"time"
 
 	"github.com/rs/zerolog"
@@ -94,15 +96,69 @@ type Node struct {
 
 var portCursor atomic.Int64
 
-// FreePorts returns n loopback ports from a range private to this worker (the
+var (
+	portWindowOnce sync.Once
+	portWindowBase int
+	portWindowErr  error
+)
+
+// claimPortWindow reserves a 64-port window for this worker process. Windows are claimed through lock
+// files (O_EXCL, holding the owner's pid) so that neither the parallel workers of one run nor the
+// workers of ANOTHER check invocation running at the same time on this machine can end up with the
+// same ports: two deployments sharing a port would quietly talk to each other (a node of one run
+// would hand its shards to a node of the other). A lock whose owner has died is taken over.
+func claimPortWindow() (int, error) {
+	portWindowOnce.Do(func() {
+		idx := 0
+		fmt.Sscanf(os.Getenv("VERIF_CASE_IDX"), "%d", &idx)
+		dir := filepath.Join(os.TempDir(), "semaverif-portlocks")
+		os.MkdirAll(dir, 0o777)
+		const windows = 340
+		for k := 0; k < windows; k++ {
+			w := (idx + k*7) % windows
+			lock := filepath.Join(dir, fmt.Sprintf("w%03d", w))
+			for attempt := 0; attempt < 2; attempt++ {
+				f, err := os.OpenFile(lock, os.O_CREATE|os.O_EXCL|os.O_WRONLY, 0o666)
+				if err == nil {
+					fmt.Fprintf(f, "%d", os.Getpid())
+					f.Close()
+					// below the kernel's ephemeral range (32768..60999): an outgoing RPC connection
+					// of any worker must not be able to occupy a port a node wants to listen on
+					portWindowBase = 10048 + w*64
+					fw.AtWorkerExit = append(fw.AtWorkerExit, func() { os.Remove(lock) })
+					return
+				}
+				// held: by a live process?
+				data, rerr := os.ReadFile(lock)
+				pid := 0
+				fmt.Sscanf(string(data), "%d", &pid)
+				if rerr == nil && pid > 0 && syscall.Kill(pid, 0) == nil {
+					break // alive, try the next window
+				}
+				if rerr == nil && pid == 0 {
+					// just created, pid not written yet: treat as alive
+					if st, serr := os.Stat(lock); serr == nil && time.Since(st.ModTime()) < 5*time.Second {
+						break
+					}
+				}
+				os.Remove(lock) // stale, take it over
+			}
+		}
+		if portWindowBase == 0 {
+			portWindowErr = fmt.Errorf("no free port window (all %d claimed)", windows)
+		}
+	})
+	return portWindowBase, portWindowErr
+}
+
+// FreePorts returns n loopback ports from a window private to this worker process (the
 // parent runs workers in parallel; asking the kernel for port 0 and closing the
 // listener lets two workers pick the same port).
 func FreePorts(n int) ([]int, error) {
-	idx := 0
-	fmt.Sscanf(os.Getenv("VERIF_CASE_IDX"), "%d", &idx)
-	// below the kernel's ephemeral range (32768..60999): an outgoing RPC connection
-	// of any worker must not be able to occupy a port a node wants to listen on
-	base := 10048 + (idx%340)*64
+	base, err := claimPortWindow()
+	if err != nil {
+		return nil, err
+	}
 	ports := make([]int, 0, n)
 	for tries := 0; len(ports) < n && tries < 64; tries++ {
 		p := base + int(portCursor.Add(1)-1)%64
